@@ -149,11 +149,27 @@ structure Transform where
   rsteps : Addr
   deriving DecidableEq, Repr
 
-/-- a `C2Http` object: its three `HttpDataTransform`s -/
+/-- which AES/HMAC session keys a decoder currently holds in `beacon_keys` -/
+inductive Keys
+  | none      -- no keys yet (a decoder that was given only the RSA private key)
+  | foreign   -- keys that do not belong to the recorded session (e.g. the dry-run client's own keys)
+  | session   -- the keys of the recorded session
+  deriving DecidableEq, Repr
+
+/-- the mutable, per-decoder part of a `C2Http` object: `priv`, `beacon_keys`, and whether the check-in metadata
+is in ITS `metadata_cache` -/
+structure KeyState where
+  hasPriv : Bool
+  keys : Keys
+  cached : Bool
+  deriving DecidableEq, Repr
+
+/-- a `C2Http` object: its three `HttpDataTransform`s and its key state -/
 structure Decoder where
   submit : Transform
   get : Transform
   response : Transform
+  ks : KeyState
   deriving DecidableEq, Repr
 
 structure State where
@@ -226,6 +242,8 @@ inductive Res
   | decoder (d : Decoder)
   | profile (cells : List Addr)
   | steps (xs : List Step)
+  /-- `list(decoder.iter_recover_http(msg))`: kinds of the packets (1 BeaconMetadata, 2 TaskPacket, 3 CallbackPacket) -/
+  | packets (kinds : List Nat)
   | snap (ms : List Mapping)
   | unit
   | exc (e : PyExc)
@@ -243,6 +261,7 @@ inductive DRes
   | decoder (d : DDecoder)
   | profile (cells : List (List Step))
   | steps (xs : List Step)
+  | packets (kinds : List Nat)
   | snap (ms : List DMapping)
   | unit
   | exc (e : PyExc)
@@ -291,6 +310,7 @@ def deepRes (h : Heap) : Res → DRes
   | .decoder d => match derefD h d with | some x => .decoder x | none => .dangling
   | .profile cs => match derefCells h cs with | some x => .profile x | none => .dangling
   | .steps xs => .steps xs
+  | .packets ks => .packets ks
   | .snap ms => match derefMaps h ms with | some x => .snap x | none => .dangling
   | .unit => .unit
   | .exc e => .exc e
@@ -318,8 +338,44 @@ def getName? {β : Type} (m : List (Key × β)) (name : String) : Option β :=
   | some k => dictGet? m ⟨.name, k⟩
 
 inductive KeyVariant
-  | aesHmac | aesRand | rsaPriv | noKey
+  | aesHmac | aesRand | rsaPriv | noKey | aesRandRsa
   deriving DecidableEq, Repr
+
+/-- key state right after `C2Http.__init__` (the key material given is the recorded session's) -/
+def initKeyState : KeyVariant → KeyState
+  | .aesHmac => ⟨false, .session, false⟩
+  | .aesRand => ⟨false, .session, false⟩
+  | .rsaPriv => ⟨true, .none, false⟩
+  | .aesRandRsa => ⟨true, .session, false⟩
+  | .noKey => ⟨false, .none, false⟩
+
+/-- the three recorded wire messages of the session the configuration belongs to -/
+inductive Wire
+  | checkin | task | callback
+  deriving DecidableEq, Repr
+
+/-- effect of `iter_recover_http(msg)` on the decoder's own state (c2.py 494-535): a check-in is RSA-decrypted when
+the decoder has the private key and the metadata is not in its cache; on that miss the session keys are derived
+if the decoder has none. -/
+def wireStep (ks : KeyState) : Wire → KeyState
+  | .checkin =>
+    if ks.hasPriv then
+      if ks.cached then ks
+      else { ks with cached := true, keys := if ks.keys = .none then .session else ks.keys }
+    else ks
+  | .task => ks
+  | .callback => ks
+
+/-- what `list(iter_recover_http(msg))` gives, as a function of the decoder's own state -/
+def wireRes (ks : KeyState) : Wire → List Nat ⊕ PyExc
+  | .checkin => .inl (if ks.hasPriv then [1] else [])
+  | .task => if ks.keys = .session then .inl [2] else .inr .valueError
+  | .callback => if ks.keys = .session then .inl [3] else .inr .valueError
+
+def setKs : List Decoder → Nat → (KeyState → KeyState) → List Decoder
+  | [], _, _ => []
+  | d :: rest, 0, f => { d with ks := f d.ks } :: rest
+  | d :: rest, i + 1, f => d :: setKs rest i f
 
 /-- `HttpDataTransform(steps=bconfig.settings[name], …)`: KeyError when absent, TypeError when the value is not
 iterable, otherwise the constructor runs on the list object the mapping refers to. -/
@@ -334,7 +390,7 @@ def mkTFrom (copies : Bool) (s : State) (m : Mapping) (name : String) (reverse :
     | some (h, t) => ({ s with heap := h }, .ok t)
 
 /-- `C2Http.__init__` (c2.py 411-469).  The state persists when an exception is raised half-way. -/
-def c2http (copies : Bool) (c : Config) (s : State) (k : KeyVariant) : State × Except Res Decoder :=
+def c2http (copies : Bool) (c : Config) (s : State) (k : KeyVariant) (ks0 : KeyState) : State × Except Res Decoder :=
   if k = .noKey then (s, .error (.exc .valueError))           -- "One of the following arguments is required"
   else
     -- bconfig.public_key  → raw_settings
@@ -356,7 +412,7 @@ def c2http (copies : Bool) (c : Config) (s : State) (k : KeyVariant) : State × 
             match mkTFrom copies s4 m "SETTING_C2_RECOVER" true (some buildOutput) with
             | (s5, .error e) => (s5, .error e)
             | (s5, .ok tr) =>
-              ({ s5 with decoders := s5.decoders ++ [⟨ts, tg, tr⟩] }, .ok ⟨ts, tg, tr⟩)
+              ({ s5 with decoders := s5.decoders ++ [⟨ts, tg, tr, ks0⟩] }, .ok ⟨ts, tg, tr, ks0⟩)
 
 /-- copies made by `from_beacon_config` of every list it iterates (c2_recover, block_steps, headers, …) -/
 def copyLists : Heap → Mapping → Option (Heap × List Addr)
@@ -404,6 +460,8 @@ inductive Op
   | transform (d : Nat) (w : Which)
   /-- `decoder.transform_<w>.recover(http)` -/
   | recover (d : Nat) (w : Which)
+  /-- `list(decoder.iter_recover_http(msg))` with the `d`-th decoder and a recorded message of the session -/
+  | recoverWire (d : Nat) (w : Wire)
   /-- `setting_enums`, `domains`, `uris`, `domain_uri_pairs`, `protocol`, `port`, `public_key`, … (read `raw_settings`) -/
   | propsRaw
   /-- `submit_uri`, `killdate` (read `settings`) -/
@@ -417,7 +475,12 @@ inductive Op
 def Op.decoderFree : Op → Bool
   | .transform _ _ => false
   | .recover _ _ => false
+  | .recoverWire _ _ => false
   | _ => true
+
+def Op.isWire : Op → Bool
+  | .recoverWire _ _ => true
+  | _ => false
 
 def clientRun (copies : Bool) (c : Config) (s : State) (beaconIdOk : Bool) : State × Res :=
   if !beaconIdOk then (s, .exc .valueError)
@@ -426,7 +489,7 @@ def clientRun (copies : Bool) (c : Config) (s : State) (beaconIdOk : Bool) : Sta
     let s1 := (viewAccess c s .rawSettings).1
     if !c.protoHttp then (s1, .exc .valueError)
     else
-      match c2http copies c s1 .aesHmac with
+      match c2http copies c s1 .aesHmac ⟨false, .foreign, false⟩ with
       | (s2, .error e) => (s2, e)
       | (s2, .ok d) =>
         if !c.hasDomains then (s2, .exc .indexError)            -- random.choice([])
@@ -469,7 +532,7 @@ def step (copies : Bool) (c : Config) (s : State) : Op → State × Res
               externals := s.externals ++ [refsOf (settingsMap s.heap c.tuple kind pretty parse).2] },
      .mapping (settingsMap s.heap c.tuple kind pretty parse).2)
   | .mkC2Http k =>
-    match c2http copies c s k with
+    match c2http copies c s k (initKeyState k) with
     | (s', .ok d) => (s', .decoder d)
     | (s', .error e) => (s', e)
   | .clientDryRun ok => clientRun copies c s ok
@@ -477,6 +540,15 @@ def step (copies : Bool) (c : Config) (s : State) : Op → State × Res
   -- transform()/recover() iterate the decoder's own step lists; the dicts they write belong to the request
   | .transform d w => (s, readSteps s d w false)
   | .recover d w => (s, readSteps s d w true)
+  -- iter_recover_http reads and writes the decoder's OWN cache and keys
+  | .recoverWire d w =>
+    match s.decoders[d]? with
+    | none => (s, .noDecoder)
+    | some dec =>
+      ({ s with decoders := setKs s.decoders d (fun ks => wireStep ks w) },
+       match wireRes dec.ks w with
+       | .inl ps => .packets ps
+       | .inr e => .exc e)
   | .propsRaw => ((viewAccess c s .rawSettings).1, .unit)
   | .propsPretty => ((viewAccess c s .settings).1, .unit)
   | .mutateAttempt (.view v) => ((viewAccess c s v).1, .exc .typeError)
